@@ -35,7 +35,8 @@ EXPECTED_PROBES = ["probe_dispatch_exact", "probe_dispatch_early", "probe_dispat
                    "probe_redefine", "probe_callback_raised", "probe_interval0", "probe_true_return_other_than_1",
                    "probe_callback_name_rebound_to_value", "probe_tick_while_name_holds_a_value",
                    "probe_callback_function_known_under_another_name_before", "probe_timer_whose_handle_is_not_kept",
-                   "probe_computed_interval", "probe_cancel_from_another_thread", "probe_thread_cancel_overlaps_callback",
+                   "probe_computed_interval", "probe_timer_created_again_after_raise", "probe_timer_created_again_after_stop",
+                   "probe_cancel_from_another_thread", "probe_thread_cancel_overlaps_callback",
                    "line_preemptions_hot"]
 WALL_CAP = {"quick": 300, "thorough": 3600}
 
@@ -192,10 +193,11 @@ def scenario(ch, cfg):
     klong["boom"] = boom
     klong["raised"] = raised
 
-    def cb_source(tid, version):
-        other = (tid + 1) % ntimers
+    def cb_source(tid, version, cbname=None):
+        other = (tid + 1) % ntimers if tid < ntimers else tid
+        cbname = cbname or timers[tid].get("cbname") or f"cb{tid}"
         # a::tick(..) returns the scripted action: 1 cancel self, 2 cancel other, 3 raise
-        return (f'cb{tid}::{{[a];a::tick({tid};{version});'
+        return (f'{cbname}::{{[a];a::tick({tid};{version});'
                 f':[a=1;rc({tid};"self";.timerc(th{tid}));:[a=2;rc({other};"other";.timerc(th{other}));:[a=3;{{raised({tid});boom()}}();'
                 f':[a=4;{{rc({tid};"self";.timerc(th{tid}));rc({tid};"self";.timerc(th{tid}))}}();0]]]];'
                 f'ret({tid})}}')
@@ -217,10 +219,44 @@ def scenario(ch, cfg):
                 externals.append(("unbind", T["id"], at))
                 at += ch.pick([0.6, 1.6, 3.2], "unbound_for") * (T["interval"] or 1)
             externals.append(("redef", T["id"], at))
+        elif ch.chance(1, 3, "recreate"):
+            externals.append(("recreate", T["id"], t0 + ch.pick([3.0, 6.0, 9.0, 14.0], "recreate.at") * (T["interval"] or 1)))
 
+
+    def recreate(tid):
+        """The same .timer line once more, after its first timer is gone (stopped, or dead because its callback raised):
+        a new timer like any other."""
+        T = timers[tid]
+        if T.get("dead") or T["start"] is None or (T["stopped_at"] is None and T["raised_at"] is None) or (T.get("in_cb") and T["raised_at"] is None):
+            return
+        new = len(timers)
+        nt = 1 + ch.draw(4, "re.nticks")
+        script = [{"dur": 0.0, "ret": 1 if k < nt - 1 else 0, "act": 0} for k in range(nt)]
+        T2 = {"id": new, "interval": T["interval"], "ivsrc": T["ivsrc"], "script": script, "ticks": [], "arms": [], "timerc": [],
+              "start": None, "handle": None, "stopped_at": None, "raised_at": None, "version": 1, "cbname": f"cb{tid}"}
+        timers.append(T2)
+        stats["probe_timer_created_again_after_raise" if T["raised_at"] is not None else "probe_timer_created_again_after_stop"] += 1
+        klong(cb_source(new, 1))
+        T2["start"] = w.now
+        klong(f'th{new}::.timer("t{tid}";{T["ivsrc"]};cb{tid})')
+        log.append(f'again: th{new}::.timer("t{tid}";{T["ivsrc"]};cb{tid}) t={w.now!r}')
+        w.note(log[-1])
+        h = klong._context[KGSym(f"th{new}")]
+        if not hasattr(h, "delegate"):
+            violations.append({"sig": "C15:timer-not-created", "msg": f'the second .timer("t{tid}";{T["ivsrc"]};cb{tid}) returned {h!r}'})
+            T2["dead"] = True
+            return
+        T2["handle"] = h
+        d = h.delegate
+        T2["arms"].append({"after_tick": -1, "when": getattr(d, "_when", None), "armed": d is not None and not getattr(d, "_cancelled", False), "t": w.now})
+        if T2["arms"][-1]["when"] is None and T2["interval"] > 0:
+            violations.append({"sig": "C15:timer-created-again-is-not-armed", "msg": f'.timer("t{tid}";{T["ivsrc"]};cb{tid}) evaluated again at t={w.now!r}, after the '
+                               f'first timer of that line had {"died in a raising callback" if T["raised_at"] is not None else "been stopped"}: the new timer has no deadline'})
 
     def do_external(kind, tid):
         T = timers[tid]
+        if kind == "recreate":
+            return recreate(tid)
         if kind == "cancel":
             live = T["stopped_at"] is None
             stats["probe_external_cancel_live" if live else "probe_external_cancel_dead"] += 1
@@ -459,6 +495,11 @@ def scenario(ch, cfg):
             if a is not None and e["ret"] and not stopped_here and not a["armed"] and T["raised_at"] is None:
                 violations.append({"sig": "C15:timer-died-after-true-return", "msg": f"timer {tid}: callback returned true at tick #{n} but nothing is armed"})
                 break
+        # (6) a timer nobody stopped keeps a deadline: the world cannot fall quiet while one is live
+        if reason == "quiescent" and T["stopped_at"] is None and T["raised_at"] is None and not violations:
+            violations.append({"sig": "C15:live-timer-stops-ticking", "msg": f"timer {tid} (interval {i}, created at t={start!r}) was never stopped - its callback "
+                               f"never returned false, no .timerc succeeded, nothing raised - yet after {len(ticks)} tick(s) nothing is scheduled any more "
+                               f"(run fell quiet at t={w.now!r})"})
         for c in T["timerc"]:
             if c["who"] == "self" and c["ret"] == 1:
                 stats["probe_cancel_self_in_callback"] += 1
